@@ -291,14 +291,7 @@ func runOneB(c *verdict.Ctx, idx int, tmp string) {
 }
 
 func init() {
-	runB = func(c *verdict.Ctx) {
-		if os.Getenv("VERIF_C05_STAGE") == "" && os.Getenv("VERIF_RACE_BIN") != "" && os.Getenv("VERIF_C05_NORACE") == "" {
-			// run this stage in the race-built binary; its counters come back through a JSON file
-			runBChild(c)
-			return
-		}
-		runBInProc(c)
-	}
+	runB = func(c *verdict.Ctx) { runBChild(c) }
 }
 
 func runBInProc(c *verdict.Ctx) {
@@ -316,33 +309,91 @@ func runBInProc(c *verdict.Ctx) {
 			}
 		}()
 	}
-	for i := 0; i < n; i++ {
+	from, to := 0, n
+	if v := os.Getenv("VERIF_C05B_FROM"); v != "" {
+		fmt.Sscan(v, &from)
+	}
+	if v := os.Getenv("VERIF_C05B_TO"); v != "" {
+		fmt.Sscan(v, &to)
+	}
+	var prog *os.File
+	if p := os.Getenv("VERIF_C05B_PROGRESS"); p != "" {
+		prog, _ = os.OpenFile(p, os.O_CREATE|os.O_WRONLY|os.O_APPEND, 0o644)
+	}
+	for i := from; i < to && i < n; i++ {
+		if prog != nil {
+			fmt.Fprintf(prog, "start %d\n", i)
+		}
 		jobs <- i
 	}
 	close(jobs)
 	wg.Wait()
 }
 
-// runBChild runs the C05b stage in the race-built binary and merges its evidence.
+// runBChild runs the C05b stage in child processes (the race-built binary when
+// there is one) and merges their evidence.  The mempool's ABCI callbacks run on
+// goroutines of the code under test, so a panic there kills the process: the
+// parent then counts the case that was running as inconclusive (a crash is not
+// what this property is about) and restarts a child behind it.
 func runBChild(c *verdict.Ctx) {
 	tmp := verdict.TmpDir("c05b-child-")
 	defer os.RemoveAll(tmp)
-	evp := filepath.Join(tmp, "evidence.json")
-	cmd := exec.Command(os.Getenv("VERIF_RACE_BIN"), "--tier", c.Tier, "C05")
-	cmd.Env = append(os.Environ(), "VERIF_C05_STAGE=b", "VERIF_EVIDENCE_PATH="+evp,
-		"GORACE=halt_on_error=0 log_path="+filepath.Join(tmp, "race"))
-	cmd.Stdout, cmd.Stderr = os.Stdout, os.Stderr
-	err := cmd.Run()
-	if merr := c.MergeChild(evp, ""); merr != nil {
-		c.HarnessError("C05b race stage produced no evidence (%v, run error %v)", merr, err)
+	bin := os.Getenv("VERIF_RACE_BIN")
+	if bin == "" || os.Getenv("VERIF_C05_NORACE") != "" {
+		bin = os.Getenv("VERIF_SELF")
+	}
+	if bin == "" {
+		runBInProc(c)
 		return
 	}
-	logs, _ := filepath.Glob(filepath.Join(tmp, "race.*"))
-	n := 0
-	for _, l := range logs {
-		b, _ := os.ReadFile(l)
-		n += strings.Count(string(b), "WARNING: DATA RACE")
+	n := c.N(32, 800)
+	from := 0
+	races := 0
+	for attempt := 0; from < n && attempt < 12; attempt++ {
+		evp := filepath.Join(tmp, fmt.Sprintf("evidence-%d.json", attempt))
+		progress := filepath.Join(tmp, fmt.Sprintf("progress-%d", attempt))
+		errLog := filepath.Join(tmp, fmt.Sprintf("stderr-%d", attempt))
+		ef, _ := os.Create(errLog)
+		cmd := exec.Command(bin, "--tier", c.Tier, "C05")
+		cmd.Env = append(os.Environ(), "VERIF_C05_STAGE=b", "VERIF_EVIDENCE_PATH="+evp, "VERIF_C05B_PROGRESS="+progress,
+			fmt.Sprintf("VERIF_C05B_FROM=%d", from), "GORACE=halt_on_error=0 log_path="+filepath.Join(tmp, fmt.Sprintf("race-%d", attempt)))
+		cmd.Stdout, cmd.Stderr = os.Stdout, ef
+		err := cmd.Run()
+		ef.Close()
+		if merr := c.MergeChild(evp, ""); merr == nil {
+			from = n // the child ran to the end
+			_ = err
+		} else {
+			// crashed: find the highest case index it had started
+			last := from
+			b, _ := os.ReadFile(progress)
+			for _, l := range strings.Split(string(b), "\n") {
+				var k int
+				if _, e := fmt.Sscanf(l, "start %d", &k); e == nil && k > last {
+					last = k
+				}
+			}
+			eb, _ := os.ReadFile(errLog)
+			msg := "no panic line"
+			for _, l := range strings.Split(string(eb), "\n") {
+				if strings.HasPrefix(l, "panic:") || strings.HasPrefix(l, "fatal error:") {
+					msg = l
+					break
+				}
+			}
+			if len(msg) > 200 {
+				msg = msg[:200]
+			}
+			c.Count("c05b.child_crashes", 1)
+			c.Set(fmt.Sprintf("c05b_child_crash_%d", attempt), map[string]interface{}{"cases_in_flight_up_to": last, "panic": msg})
+			c.Inconclusive("c05b child process crashed (" + msg + ")")
+			from = last + 1
+		}
+		logs, _ := filepath.Glob(filepath.Join(tmp, fmt.Sprintf("race-%d.*", attempt)))
+		for _, l := range logs {
+			b, _ := os.ReadFile(l)
+			races += strings.Count(string(b), "WARNING: DATA RACE")
+		}
 	}
-	c.Count("c05b.race_reports(diagnostic)", int64(n))
-	c.Count("c05b.race_stage_runs", 1)
+	c.Count("c05b.race_reports(diagnostic)", int64(races))
 }
